@@ -21,7 +21,7 @@ import (
 //	wqfinish N, wqremove N (processWithdrawQueue)   statreward M N (rewards pools of the statistics)
 //
 // Staking-trie operations:  srec D V N M | prel D V | sreset
-// Control:  snap | revert N | fin | iroot | commit M | copy M
+// Control:  snap | revert N | fin | iroot | commit M | copy M | emptybase M (first op only)
 type Op struct {
 	K string `json:"k"`
 	A int    `json:"a,omitempty"`
@@ -145,6 +145,9 @@ func genStakingOp(t *rapid.T) Op {
 // nonce, a few validators, a few delegations, and a commit + reopen.
 func GenSetup(t *rapid.T) []Op {
 	var ops []Op
+	if rapid.IntRange(0, 9).Draw(t, "emptybase") < 3 {
+		ops = append(ops, Op{K: "emptybase", M: rapid.IntRange(1, 3).Draw(t, "m")})
+	}
 	for d := 0; d < NDel; d++ {
 		if rapid.IntRange(0, 9).Draw(t, "fundd") > 0 {
 			ops = append(ops, Op{K: "setnonce", A: NAcct + d, N: 1})
@@ -215,7 +218,9 @@ func GenOps(t *rapid.T, cfg GenCfg) []Op {
 		case w < wSnap+wTx+wCommit:
 			return Op{K: "commit", M: rapid.IntRange(0, 2).Draw(t, "m")}
 		case w < wSnap+wTx+wCommit+wCopy:
-			return Op{K: "copy", M: rapid.IntRange(0, 3).Draw(t, "m")} // bit0: which side goes on, bit1: before Finalise
+			// bit0: which side goes on, bit1: before Finalise, bit2: both sides then append to
+			// the same staking records, bit3: in which order
+			return Op{K: "copy", M: rapid.IntRange(0, 15).Draw(t, "m")}
 		case w < wSnap+wTx+wCommit+wCopy+wStaking:
 			return genStakingOp(t)
 		case w < wSnap+wTx+wCommit+wCopy+wStaking+wAcct:
@@ -243,7 +248,7 @@ func GenContentAtoms(t *rapid.T, max int) []Op {
 	setup := GenSetup(t)
 	for _, op := range setup {
 		switch op.K {
-		case "fin", "iroot", "commit":
+		case "fin", "iroot", "commit", "emptybase":
 		default:
 			ops = append(ops, op)
 		}
@@ -381,6 +386,55 @@ func GenStorageOps(t *rapid.T, max int) []Op {
 			return Op{K: "create", A: a, M: rapid.IntRange(0, 1).Draw(t, "m"), N: uint64(rapid.IntRange(0, 2).Draw(t, "n"))}
 		default:
 			return Op{K: "addbal", A: a, N: uint64(rapid.IntRange(0, 2).Draw(t, "n"))}
+		}
+	})
+	minLen := rapid.IntRange(1, max).Draw(t, "minops")
+	return append(ops, rapid.SliceOfN(one, minLen, max).Draw(t, "ops")...)
+}
+
+// GenLifecycleOps draws a history concentrated on the life cycle of two accounts inside
+// one block: value transfers incl. zero-value touches, self-destruct (also repeated, also
+// after receiving value again), re-creation, nested snapshots and reverts, mostly within
+// few transactions; 40 % of the histories start from a base with committed empty accounts.
+func GenLifecycleOps(t *rapid.T, max int) []Op {
+	var ops []Op
+	if rapid.IntRange(0, 9).Draw(t, "emptybase") < 4 {
+		ops = append(ops, Op{K: "emptybase", M: rapid.IntRange(1, 3).Draw(t, "m")})
+	}
+	for a := 0; a < 2; a++ {
+		if rapid.IntRange(0, 2).Draw(t, "fund") > 0 {
+			ops = append(ops, Op{K: "addbal", A: a, N: uint64(rapid.IntRange(0, 3).Draw(t, "bal"))})
+		}
+	}
+	if rapid.Bool().Draw(t, "prefin") {
+		ops = append(ops, Op{K: "fin"})
+	}
+	one := rapid.Custom(func(t *rapid.T) Op {
+		w := rapid.IntRange(0, 99).Draw(t, "fam")
+		a := rapid.IntRange(0, 1).Draw(t, "a")
+		switch {
+		case w < 24:
+			return Op{K: "addbal", A: a, N: uint64(rapid.IntRange(0, 2).Draw(t, "n"))}
+		case w < 40:
+			return Op{K: "suicide", A: a}
+		case w < 58:
+			return Op{K: "snap"}
+		case w < 73:
+			return Op{K: "revert", N: uint64(rapid.IntRange(0, 3).Draw(t, "n"))}
+		case w < 81:
+			return Op{K: "fin"}
+		case w < 83:
+			return Op{K: "iroot"}
+		case w < 85:
+			return Op{K: "commit", M: rapid.IntRange(0, 2).Draw(t, "m")}
+		case w < 91:
+			return Op{K: "create", A: a, M: rapid.IntRange(0, 1).Draw(t, "m"), N: uint64(rapid.IntRange(0, 2).Draw(t, "n"))}
+		case w < 95:
+			return Op{K: "subbal", A: a, N: uint64(rapid.IntRange(0, 2).Draw(t, "n"))}
+		case w < 98:
+			return Op{K: "setstate", A: a, S: 0, N: uint64(rapid.IntRange(0, 2).Draw(t, "n"))}
+		default:
+			return Op{K: "setnonce", A: a, N: uint64(rapid.IntRange(0, 1).Draw(t, "n"))}
 		}
 	})
 	minLen := rapid.IntRange(1, max).Draw(t, "minops")
